@@ -8,7 +8,7 @@ import z3
 from . import common, lib  # noqa
 from . import C13 as _c13  # noqa  (replace_token: whole NAME tokens only; list_tokens)
 
-P = Property('C03', 'proof',
+P = Property('C03', 'other',
              'Contracts on the real AST of EquationParser.CleanupRightHandSide, FindExactMatches and RebuildEquations: substitution rewrites right-hand sides '
              'only (through replace_token, whole NAME tokens: C13), the set of variables and the order and names of the simultaneous equations are kept '
              '(nothing lost, duplicated or renamed), each simultaneous equation is the current text of its variable, initial conditions / lagged / '
